@@ -13,7 +13,39 @@ const SINGLETONS: &[&str] = &["A2ML", "MOD_COMMON", "MOD_PAR", "VARIANT_CODING"]
 
 fn push_new(rng: &mut Rng, m: &mut Module, n: u32) -> Key {
     let name = format!("zznew_{n}");
-    match rng.below(12) {
+    match rng.below(20) {
+        12 => {
+            m.compu_vtab_range.push(CompuVtabRange::new(name.clone(), "new".into(), 0));
+            ("COMPU_VTAB_RANGE".into(), name)
+        }
+        13 => {
+            m.compu_tab.push(CompuTab::new(name.clone(), "new".into(), ConversionType::TabIntp, 0));
+            ("COMPU_TAB".into(), name)
+        }
+        14 => {
+            m.instance.push(Instance::new(name.clone(), "new".into(), "td".into(), 0));
+            ("INSTANCE".into(), name)
+        }
+        15 => {
+            m.transformer.push(Transformer::new(name.clone(), "1".into(), "a".into(), "b".into(), 1, TransformerTrigger::OnChange, "NO_INVERSE_TRANSFORMER".into()));
+            ("TRANSFORMER".into(), name)
+        }
+        16 => {
+            m.typedef_structure.push(TypedefStructure::new(name.clone(), "new".into(), 4));
+            ("TYPEDEF_STRUCTURE".into(), name)
+        }
+        17 => {
+            m.typedef_axis.push(TypedefAxis::new(name.clone(), "new".into(), "NO_INPUT_QUANTITY".into(), "rl".into(), 0.0, "NO_COMPU_METHOD".into(), 2, 0.0, 1.0));
+            ("TYPEDEF_AXIS".into(), name)
+        }
+        18 => {
+            m.typedef_blob.push(TypedefBlob::new(name.clone(), "new".into(), 4));
+            ("TYPEDEF_BLOB".into(), name)
+        }
+        19 => {
+            m.typedef_characteristic.push(TypedefCharacteristic::new(name.clone(), "new".into(), CharacteristicType::Value, "rl".into(), 0.0, "NO_COMPU_METHOD".into(), 0.0, 1.0));
+            ("TYPEDEF_CHARACTERISTIC".into(), name)
+        }
         0 => {
             m.measurement.push(Measurement::new(name.clone(), "new".into(), DataType::Ubyte, "NO_COMPU_METHOD".into(), 1, 0.0, 0.0, 255.0));
             ("MEASUREMENT".into(), name)
